@@ -243,10 +243,17 @@ struct ExCheck : Check {
 		}
 		std::string pat = r.chance(1, 2) ? std::string(WORDS[r.below(12)]) : gen_pattern(r);
 		std::string head = g.good_range() + (r.chance(1, 3) ? (r.chance(1, 2) ? "v" : "g!") : "g") + "/" + pat + "/";
-		int k = (int) r.below(12);
+		int k = (int) r.below(13);
 		std::string sub;
 		bool text = false;
-		if (k == 0) sub = "d";
+		if (k == 12) {
+			// a list of two or three commands separated by |
+			static const char *parts[] = {"s/a/Z/", "s/$/!/", "s/b/<&>/", "d", "-1d", "+1d", "s/^/#/", "+1s/$/+/"};
+			sub = parts[r.below(8)];
+			int more = (int) r.range(1, 2);
+			for (int i = 0; i < more; i++) sub += std::string("|") + parts[r.below(8)];
+		}
+		else if (k == 0) sub = "d";
 		else if (k == 1) sub = "s/" + std::string(1, "abc"[r.below(3)]) + "/<&>/";
 		else if (k == 2) sub = "s/" + gen_pattern(r) + "/Q/g";
 		else if (k == 3) { g.emit(g.good_range() + "y q", "", "y"); sub = "pu q"; }
@@ -405,6 +412,7 @@ struct ExCheck : Check {
 		while (i < now.size() && i < want.size() && now[i] == want[i]) i++;
 		std::string cls = clsbase + (now.size() != want.size() ? "/line-count-differs" : "/line-differs");
 		if (i < now.size() && i < want.size() && !utf8_valid(now[i]) && utf8_valid(want[i])) cls = clsbase + "/invalid-utf8";
+		if (M.skip_hazard && clsbase == "C15/g") cls = "C15/g/list-leaves-unvisited-line-above-scan";
 		c.violate(cls, ctx + ": buffer has " + std::to_string(now.size()) + " lines, the reference " + std::to_string(want.size()) + "; first difference at line " + std::to_string(i + 1) +
 			": got \"" + vis(i < now.size() ? now[i] : "<none>", 60) + "\" expected \"" + vis(i < want.size() ? want[i] : "<none>", 60) + "\"");
 	}
@@ -484,6 +492,7 @@ struct ExCheck : Check {
 		for (auto &kv : K.fs) mfiles[kv.first] = kv.second.data;
 		M.input = &in; M.in_pos = 0;
 		M.visited.clear();
+		M.skip_hazard = false;
 		M.alts.clear();
 		ExResult R;
 		if (kind == "bar") {
